@@ -56,6 +56,15 @@ CLAIMED = {
             "timeouts, three encoding modes) for names/coordinates, never-raises, byte accounting and fragmentation invariance.",
             "Trusted: TLC, InputTable.tla (frozen at the pinned commit), the reference decoder, the Rig around Screen.parse_input.",
             "DESIGN.md §4 C05"),
+    "C20": ("TLA+ spec Scrollable.tla (stored position, pending action, resolve-and-clamp at render; scrollbar geometry contract) model-checked "
+            "by TLC for all histories within bounds; TLC trace validation (ScrollableTrace.tla) of histories executed on real Scrollable / ScrollBar "
+            "objects around row-labelled probe widgets",
+            "TLC checks the after-render invariants and satisfiability/monotonicity of the bar geometry over every bounded history, and judges every "
+            "render of the real widgets (every (total, height, position) swept, exhaustive two-step histories, random histories with resizes, content "
+            "changes, wheel events, consuming children, fixed and flow children, ListBox under ScrollBar) for slice, bounds, reported position, bar "
+            "presence, part sizes, thumb-at-top, monotonicity and child width.",
+            "Trusted: TLC, the probe widgets and canvas projection in vf/props/c20.py.",
+            "DESIGN.md §4 C20"),
 }
 
 NOT_APPLICABLE = {}
